@@ -607,6 +607,49 @@ def o3_fresh_owner_escapes(prog):
     return r
 
 
+@rule('W8', props=['C04', 'C10', 'C16', 'C05'], floor=1, configs=('all', 'default'))
+def w8_copied_column_holds_the_rows(prog):
+    """A step that reads a source column of `length` rows (rebuilds it from its slot) and pushes a new column onto
+    another column list for the same component must push a column holding those rows: the pushed Vec derives from
+    the rebuilt one by an element-count preserving copy (clone / to_vec / to_owned), never from `Vec::new()` /
+    `with_capacity` (zero rows under a length that says otherwise: later walks read or drop `length` elements that
+    were never constructed)."""
+    r = Result()
+    for fn, imp in walk_fns(prog):
+        it, paths = traces(prog, fn)
+        key = fn_key(fn, imp)
+        found = False
+        for p in paths:
+            if p.ended != 'return':
+                continue
+            rebuilt = [e for e in p.events if e['k'] == 'from_raw' and e['what'] == 'vec']
+            if not rebuilt:
+                continue
+            src_cols = set()
+            for e in rebuilt:
+                s_ = e['ptr']
+                while s_[0] == 'tptr':
+                    s_ = s_[1]
+                if s_[0] == 'elemf':
+                    src_cols.add(s_[1])
+            for e in p.events:
+                if e['k'] != 'colvec_method' or e['name'] != 'push' or e['col'] in src_cols:
+                    continue
+                for val in e['args']:
+                    if val[0] != 'tuple':
+                        continue
+                    for x in val[1]:
+                        if x[0] in ('vecptr', 'vecptr_u8') and x[1][0] == 'fresh':
+                            found = True
+                            how = x[1][3] if len(x[1]) > 3 else None
+                            if how != 'clone':
+                                r.viol('W8', key + '/empty-column-for-rows', fn.loc(e['ln']),
+                                       'the column pushed for a present component is a fresh Vec (%s) rather than a copy of the source column: it holds no rows while the archetype length counts the source\'s rows' % how, tag=fn.name)
+        if found:
+            r.inst(key, tag=fn.name)
+    return r
+
+
 @rule('O5', props=['C04', 'C01', 'C05'], floor=3, configs=('all', 'default'))
 def o5_packed_buffer_linearity(prog):
     """Packed row buffer: every cursor advance by size_of::<T>() is accompanied on the same path by a read
